@@ -2,7 +2,7 @@ SPECIFICATION GenSpec
 CONSTANTS
   Alphabet <- Alpha5
   Ranges <- Rng3
-  MaxLen = 5
+  MaxLen = 4
   Limit = 3
   Chunked = TRUE
   NoRangeLen = 4
